@@ -28,6 +28,15 @@ type c06In struct {
 	P *int
 }
 type c06Inner struct{ X int }
+
+// value-receiver String/Error methods: calling them through a nil pointer panics (fmt recovers)
+type c06Named struct{ N int }
+
+func (n c06Named) String() string { return "named" }
+
+type c06Err struct{ N int }
+
+func (e c06Err) Error() string { return "err" }
 type c06Unexp struct {
 	a int
 	B string
@@ -55,7 +64,7 @@ func c06Schema() *z.StructSchema {
 	})
 }
 
-const c06NVals = 45
+const c06NVals = 49
 
 // c06Value: the k-th entry of the dynamic-type catalogue
 func c06Value(k int) any {
@@ -162,6 +171,20 @@ func c06Value(k int) any {
 		return map[string]error{"a": nil} // named interface element type
 	case 44:
 		return map[string]interface{ String() string }{"a": nil}
+	case 45:
+		var p *c06Named
+		return p // typed-nil fmt.Stringer
+	case 46:
+		var p *c06Err
+		return p // typed-nil error
+	case 47:
+		var p *c06Named
+		var e *c06Err
+		var t *time.Time
+		return map[string]any{"a": p, "b": p, "n": e, "l": []any{p, e, t}, "p": t, "s": []any{p}, "q": e}
+	case 48:
+		var t *time.Time
+		return t
 	case 33:
 		return map[string]any{"a": uint8(n), "b": []byte(s), "l": [1]int{n}, "p": uint64(n), "n": map[string]int{"x": n}}
 	}
